@@ -231,7 +231,7 @@ def run_chunk(rec, sh, tier):
 def run_long(rec, tier, seed):
     """dtype-width boundaries: strings / tensors of every length around 127/128, 255/256, 32767/32768, 65535/65536 (a fixed pattern)."""
     from tangermeme.utils import characters, chunk, one_hot_encode, reverse_complement, unchunk
-    lens = [126, 127, 128, 129, 254, 255, 256, 257, 1000, 32766, 32767, 32768, 32769, 65535, 65536, 65537, 70001]
+    lens = [126, 127, 128, 129, 254, 255, 256, 257, 1000, 32766, 32767, 32768, 32769, 65535, 65536, 65537, 70001, (1 << 20) + 3]
     for L in lens:
         i = numpy.arange(L)
         codes = (i * i + i // 5 + (i % 11) + seed) % 5          # 0..3 = ACGT, 4 = N
